@@ -19,7 +19,7 @@ trap 'git -C $ROOT/repo checkout -q -- .' EXIT
 git -C $ROOT/repo apply "$PATCH" || { echo "patch does not apply"; exit 2; }
 rsync -a --delete --exclude .git --exclude .build --exclude replays --exclude evidence /verif/ $ROOT/verif/
 mkdir -p $ROOT/verif/evidence $ROOT/verif/replays
-sed -i "s#\"/repo/#\"$ROOT/repo/#g" $ROOT/verif/llharness/Cargo.toml $ROOT/verif/llharness_cg/Cargo.toml
+sed -i "s#\"/repo/#\"$ROOT/repo/#g" $ROOT/verif/llharness/Cargo.toml $ROOT/verif/llharness_cg/Cargo.toml $ROOT/verif/llharness_diag/Cargo.toml
 cd $ROOT/verif
 rc=0
 for p in "$@"; do
